@@ -17,7 +17,7 @@ def kvOf (ws : List String) (k : String) : String :=
 def c15step (_ : Unit) (op : String) (impl : String) : Unit × String :=
   let ws := op.splitOn " "
   let kind := ws.headD ""
-  if kind != "run" && kind != "probe-recycle" && kind != "probe-persist-close" && kind != "probe-pause-close" then ((), "bad-op" ++ sep ++ "na") else
+  if kind != "run" && kind != "probe-recycle" && kind != "probe-persist-close" && kind != "probe-pause-close" && kind != "probe-shared-requests" then ((), "bad-op" ++ sep ++ "na") else
   let dir := kvOf ws "dir"
   let mode := kvOf ws "mode"
   let expected := if dir == "mem" then "ok closed mem-noreopen" else "ok closed reopened acked_present"
@@ -25,6 +25,7 @@ def c15step (_ : Unit) (op : String) (impl : String) : Unit × String :=
     if impl == expected then "ok"
     else if impl.startsWith "race " then "bad:data-race"
     else if impl.startsWith "close-timeout" then "bad:close-timeout"
+    else if impl.startsWith "concurrent-differs-from-solo" then "bad:concurrent-result-differs-from-solo"
     else if impl.startsWith "close-spin" then "bad:close-case-does-not-leave-loop"
     else if impl.startsWith "lost " then "bad:acknowledged-batch-lost"
     else if impl.startsWith "crash" || impl.startsWith "panic" || impl.startsWith "child-timeout" then "bad:crash"
@@ -35,7 +36,14 @@ def c15step (_ : Unit) (op : String) (impl : String) : Unit × String :=
              "ice-v" ++ kvOf ws "ver",
              (if kvOf ws "across" == "1" then "across-close" else "stop-before-close"),
              (if kvOf ws "stats" == "2" then "stats-copy" else "stats-atomic"),
-             "gomaxprocs-" ++ kvOf ws "p"]
+             "gomaxprocs-" ++ kvOf ws "p"] ++
+            (if kind == "probe-shared-requests" then
+               (if (kvOf ws "share").toNat!.testBit 0 then ["parallel-standard-aggregations"] else []) ++
+               (if (kvOf ws "share").toNat!.testBit 1 then ["parallel-shared-sort-order"] else []) ++
+               (if (kvOf ws "share").toNat!.testBit 2 then ["parallel-shared-aggregation-definitions"] else []) ++
+               (if (kvOf ws "share").toNat!.testBit 3 then ["parallel-shared-term-queries"] else []) ++
+               (if (kvOf ws "share").toNat!.testBit 4 then ["parallel-shared-boolean-query"] else [])
+             else [])
   ((), expected ++ sep ++ verdict ++ " br=" ++ ",".intercalate br)
 
 def main : IO Unit := driverLoop () c15step
